@@ -2,7 +2,11 @@
 // run time: recursive, mutually recursive and named types.
 package gen
 
-import "time"
+import (
+	"time"
+
+	"github.com/unravelin/null"
+)
 
 // R is self-recursive through a slice.
 type R struct {
@@ -100,4 +104,14 @@ type Named struct {
 	O  MyBool   `plenc:"5"`
 	U  []MyU8   `plenc:"6"`
 	IF MyInt    `plenc:"7,flat"`
+}
+
+// NIntern / NPlain: interned null.String and its twin.
+type NIntern struct {
+	A null.String `plenc:"1,intern"`
+	B string      `plenc:"2,intern"`
+}
+type NPlain struct {
+	A null.String `plenc:"1"`
+	B string      `plenc:"2"`
 }
